@@ -83,6 +83,12 @@ CHECKS["C04"] = ("exploration",
     "Part-of-day start hours come from the library's own table; spelling -> part of day mapping frozen in the grammar; ambiguous spellings ('so früh', '5ten') documented as not asserted.",
     "DESIGN.md 4 (C04)")
 
+CHECKS["C05"] = ("exploration",
+    "Enumeration of all valid dates 1990-2029 x frozen absolute notations (numeric and month-name, every month spelling) x clock variants under several reference times (thorough: all 14 610 dates; quick: Hypothesis sample); oracle = the written fields, metamorphic independence of the reference time",
+    "The written (y, m, d[, h, mi]) is the oracle and must come out for every reference time, hence all notations agree; thorough enumerates the whole date range for every numeric notation.",
+    "Military-time years excluded for month-name notations as the property states; dd.mm.yy = 20yy.",
+    "DESIGN.md 4 (C05)")
+
 NOT_YET = "check not built yet in this round (see DESIGN.md section 4 for the planned generated-input check)"
 
 
